@@ -696,6 +696,13 @@ func (f *LogFile) execSeriesEntry(e *LogEntry) {
 	//
 	// https://github.com/influxdata/influxdb/issues/9444
 	if seriesKey == nil {
+		// A tombstone stays a tombstone although the key can no longer be looked up
+		// (the series file has been compacted since): an older index file may still
+		// list the series, and without the tombstone it would count as live again.
+		if e.Flag == LogEntrySeriesTombstoneFlag {
+			f.seriesIDSet.Remove(e.SeriesID)
+			f.tombstoneSeriesIDSet.Add(e.SeriesID)
+		}
 		return
 	}
 
